@@ -199,7 +199,7 @@ def conc(case):
 def jobs(tier, seed):
     q = tier == "quick"
     n = 4 if q else 5
-    out = [dict(ix="int", n=n), dict(ix="list", n=n, m=2 if q else 3), dict(ix="array", n=n, m=2), dict(ix="mask", n=n), dict(ix="rlmask", n=n), dict(ix="rlmask_ufunc", n=n),
+    out = [dict(ix="int", n=n), dict(ix="list", n=n, m=2 if q else 3), dict(ix="array", n=n, m=2), dict(ix="mask", n=n), dict(ix="rlmask", n=n), dict(ix="rlmask_ufunc", n=3 if q else 4),
            dict(ix="windows", n=3 if q else 4, k=2), dict(ix="ellipsis", n=n)]
     for s in (1, 2, 3, -1, -2, -3) if not q else (1, 2, -1, -2, 3):
         out.append(dict(ix="slice", n=n, s=s))
